@@ -226,7 +226,12 @@ def replay_file(prop, rec):
         if 'every mutable view accepted the writes' in out:
             return False, 'not reproduced: Miri (Tree Borrows) accepts a write through every mutable view'
         return False, 'Miri run failed: ' + out[-300:]
-    rc, out, wall = urun([exe, sc, kc], timeout=900)
+    # the guards' Drop impls are reached natively through the operations that use them
+    via = {'drop.ArrayConsumer': ['map', 'fold', 'zip'], 'drop.IntrusiveArrayBuilder': ['generate', 'try_from_iter'], 'drop.ArrayBuilder': ['generate', 'try_from_iter']}.get(sc, [sc])
+    for sc_ in via:
+        rc, out, wall = urun([exe, sc_, kc], timeout=900)
+        if rc != 0:
+            break
     m = re.search(r'REPRODUCED (.*)', out)
     if rc == 1 and m:
         return True, 'native run of the real crate: ' + m.group(1)[:300]
